@@ -540,6 +540,12 @@ func (bp *boundsProver) axiomsFor(vals []ssa.Value) []bfact {
 		case *ssa.Convert:
 			add(x.X, depth-1)
 		case *ssa.Call:
+			// relational library contract: strings/bytes Index*(s, ...) < len(s)
+			if f := x.Common().StaticCallee(); f != nil && f.Pkg != nil && (f.Pkg.Pkg.Path() == "strings" || f.Pkg.Pkg.Path() == "bytes") &&
+				(strings.HasPrefix(f.Name(), "Index") || strings.HasPrefix(f.Name(), "LastIndex")) && len(x.Common().Args) >= 1 {
+				l := bp.linear(v, 6)
+				fs = append(fs, bfact{l.term, "len(" + memName(x.Common().Args[0]) + ")", -1 - l.off})
+			}
 			for _, a := range x.Common().Args {
 				add(a, depth-1)
 			}
